@@ -291,12 +291,10 @@ class _ScopeContext:
                 if a := getattr(tp, 'default_value', None):
                     stack.append(a)
 
-            stack.extend(ast.bases)
-            stack.extend(ast.keywords)
+            stack.extend(ast.f._cached_arglikes())  # bases and keywords in syntax order, they can be interleaved
 
         else:  # forward
-            stack.extend(ast.keywords[::-1])
-            stack.extend(ast.bases[::-1])
+            stack.extend(ast.f._cached_arglikes()[::-1])
 
             for tp in getattr(ast, 'type_params', ())[::-1]:  # type parameters
                 if a := getattr(tp, 'default_value', None):
